@@ -473,6 +473,30 @@ func rulesC10(e *Engine, r *Report) {
 	e.checkRecoverKeepsPrev(r, "R10.8")
 	// ---------------------------------------------------------------- R10.9
 	e.shareRule(r, "C19", "R19.5", "R10.9", "a group is ordered by its own tag: the tagger main hands to the queue answers a group name - which the grouper makes the tag's own name when group-by yields nothing - with that tag, not with the default tag whose order and predecessor policy differ")
+	// ---------------------------------------------------------------- R10.10
+	r.Rule("R10.10", "taking the head out of a group does not cut the chain: when removeFile replaces the group's head it puts the successor there only if there is one, and otherwise the node before it - the completed file the queue keeps as place holder so that whatever is pushed next (the same name again, after a rewrite) still announces it as predecessor")
+	if fn := needFn(e, r, "R10.10", "queue.(*Tagged).removeFile"); fn != nil {
+		n := 0
+		Instrs(fn, func(in ssa.Instruction) {
+			mu, ok := in.(*ssa.MapUpdate)
+			if !ok || !strings.HasPrefix(e.Canon(mu.Map), "p0.headFile") {
+				return
+			}
+			n++
+			v := e.Canon(mu.Value)
+			switch v {
+			case "p1.prev", "phi(p1.prev|p1.next)", "phi(p1.next|p1.prev)":
+				r.Ok("R10.10", "queue.(*Tagged).removeFile: head falls back to the node before", e.InstrPos(in), 1, v)
+			case "p1.next":
+				cls := labeler(C("(p1.next != nil)", "hasNext"), C("(nil != p1.next)", "hasNext"))
+				e.Guarded(r, "R10.10", "queue.(*Tagged).removeFile: head moves to the successor only if there is one", fn, only(in), cls,
+					func(l LabelSet) bool { return l.Has("hasNext") }, "file.next != nil")
+			default:
+				r.Bad("R10.10", "queue.(*Tagged).removeFile: new head", e.InstrPos(in), "the head is replaced by `"+v+"`, neither the successor nor the node before", 1)
+			}
+		})
+		r.Min("R10.10", "head replacements in removeFile", n, 1)
+	}
 }
 
 func rulesC12(e *Engine, r *Report) {
